@@ -29,6 +29,14 @@ func (e *injectedError) Error() string { return "injected fault at " + e.kind }
 
 func (p *FaultPlan) FailAt(kind string, n int) { p.mu.Lock(); p.failAt[kind] = n; p.mu.Unlock() }
 
+// FailNext fails the next occurrence of kind (atomically with respect to the counter).
+func (p *FaultPlan) FailNext(kind string) {
+	p.mu.Lock()
+	p.failAt[kind] = p.counts[kind] + 1
+	delete(p.fired, kind)
+	p.mu.Unlock()
+}
+
 func (p *FaultPlan) hit(kind string) error {
 	if p == nil {
 		return nil
